@@ -9,6 +9,7 @@ TITLE = "Scale selection is non-saturating, full-range and local to its axis/gro
 
 RULES = {
     "C03.R1": "reduction dims: for every range function, the dim of amax/amin folded for ndim 1..4 x axis {0,-1} is range(ndim) minus the kept axis; keepdim=True; axis None reduces everything",
+    "C03.R7": "calibrated activation scales: the calibration hooks measure the module's float input and raw output with absmax_scale(x, module.activation_qtype) (the rules C12.R3/R4), so the divisor is the maximum of the qtype in force",
     "C03.R2": "symmetric ranges reduce |base|; affine ranges take amin and amax over the same dims of the same (grouped) tensor",
     "C03.R3": "divisor = clamp bound: the symmetric scale divides by the maximum of the storage range of every qtype that can reach it; the affine scale divides by 2**bits - 1",
     "C03.R4": "dtype: both optimizer wrappers keep the post-condition scale.dtype == base.dtype; no cast to a fixed float dtype in the scale term",
@@ -244,6 +245,10 @@ def run(chk):
     ao = repo.cls("AffineOptimizer").own("__call__")
     grp_calls2 = [U(n) for n in path_calls(ao, "group")]
     norm = lambda s_: s_.replace("axis=", "").replace("group_size=", "")
+    if chk.pid == "C03":
+        from ..report import AliasedCheck
+        from . import c12
+        c12.run(AliasedCheck(chk, {"C12.R3": "C03.R7", "C12.R4": "C03.R7"}))
     grouping_condition(chk, "C03.R5")
     chk.require("C03.R5", f"{repo.cls('AffineQuantizer').mod.rel}:{aq.lineno}", len(grp_calls) == 1 and len(grp_calls2) == 1 and norm(grp_calls[0]) == norm(grp_calls2[0]), f"quantizer groups with `{grp_calls}`, optimizer wrapper with `{grp_calls2}`", "AffineQuantizer.forward", "same grouping call", "grouped weights: scale layout and code layout disagree")
     # ---------------- R6
@@ -257,6 +262,17 @@ def run(chk):
             ok = len(a) == 4 and a[2] == "None" and a[3].endswith(", None)")
             chk.require("C03.R6", f"{mi_q.rel}:{p.end[2]}", ok, f"axis of size 1: optimizer and quantizer are called per-tensor ({a[2:]})", "quantize_weight", "size-1 axis rewrite", "a weight with a single output feature")
     chk.floor("C03.R6", n6, 1, "size-1 axis paths")
+    # converse: a per-axis request is only turned into a per-tensor one when the axis has a single index
+    for p in paths_of(qw):
+        f = path_facts(p)
+        e = p.end[1] if p.end[0] == "return" else None
+        if e is None or f.get(f"{qt}.bits == 8") is not True or not (isinstance(e, ast.Call) and len(e.args) == 4):
+            continue
+        if U(e.args[2]) != "None":
+            continue
+        justified = f.get(f"{ax} is None") is True or any(k.endswith(f"{t}.shape[{ax}] == 1") and v is True for k, v in f.items())
+        chk.require("C03.R6", f"{mi_q.rel}:{p.end[2]}", justified, f"quantize_weight quantizes per-tensor only when no axis is requested or the axis has one index ({' & '.join(p.cond_texts())[:120]})", "quantize_weight", "per-axis request turned per-tensor",
+                    "a weight whose other dimensions have size 1, e.g. (N, 1) along axis 0 (Linear(in_features=1)) or a (C,1,1,1) depthwise kernel: one scale for all rows instead of one per row")
     from . import c04_layout
     c04_layout.group_ungroup(chk, "C03.R5")
     chk.assume("amax/amin with a dim list reduce exactly those dims; storage ranges of the dtypes (table)")
